@@ -36,11 +36,23 @@ def env_offline():
     return e
 
 
+WS_A64 = os.path.join(BUILD, "ws-a64")
+
+
 def miri_cmd(target, miriflags, args):
     e = env_offline()
     e["MIRIFLAGS"] = miriflags
+    tdir = MIRI_TARGET_DIR
+    if target == "aarch64":
+        # #[target_feature(enable = "aes")] functions may only be called when the (simulated) CPU has the feature
+        e["RUSTFLAGS"] = "-C target-feature=+aes"
+        tdir = os.path.join(BUILD, "target-miri-a64")
+        # kuznyechik/src/neon/backends.rs loads 16 bytes through `&sbox[i] as *const u8` (a pointer derived from a
+        # reference to ONE byte): Stacked Borrows rejects that, Tree Borrows accepts it. Model choice, not a finding
+        # of a claimed property (DESIGN.md 3.4 / 10): aarch64 runs use Tree Borrows; x86_64 and i686 keep Stacked Borrows.
+        e["MIRIFLAGS"] = (miriflags + " -Zmiri-tree-borrows").strip()
     cmd = ["cargo", "+nightly", "miri", "run", "--offline", "--quiet", "--bin", "sim-miri", "--target", TARGETS[target],
-           "--target-dir", MIRI_TARGET_DIR, "--"] + args
+           "--target-dir", tdir, "--"] + args
     return cmd, e
 
 
@@ -48,7 +60,7 @@ def run_miri(target, miriflags, args, timeout):
     cmd, e = miri_cmd(target, miriflags, args)
     t0 = time.time()
     try:
-        p = subprocess.run(cmd, cwd=WS, env=e, capture_output=True, text=True, timeout=timeout)
+        p = subprocess.run(cmd, cwd=(WS_A64 if target == "aarch64" else WS), env=e, capture_output=True, text=True, timeout=timeout)
         return p.returncode, p.stdout, p.stderr, time.time() - t0
     except subprocess.TimeoutExpired as ex:
         return -9, (ex.stdout or b"").decode() if isinstance(ex.stdout, bytes) else (ex.stdout or ""), "TIMEOUT", time.time() - t0
@@ -109,14 +121,14 @@ def write_replay(name, obj):
 # Miri exec mode: explicit operation lists, digest compared with native
 
 
-def export_lists(prop, seed, count, max_ops, max_variants, tag, extra_fams=None):
+def export_lists(prop, seed, count, max_ops, max_variants, tag, only=None, variants=None):
     out = os.path.join(BUILD, "tmp", f"exp-{prop}-{tag}")
     if os.path.isdir(out):
         for f in os.listdir(out):
             os.remove(os.path.join(out, f))
-    fams = CHEAP + (extra_fams or [])
+    fams = only or CHEAP
     cmd = [NATIVE, "export", "--prop", prop, "--seed", str(seed), "--count", str(count), "--families", ",".join(fams),
-           "--variants", ",".join(MIRI_VARIANTS + [f for f in []]), "--max-ops", str(max_ops), "--max-variants", str(max_variants), "--out", out]
+           "--variants", ",".join(variants or MIRI_VARIANTS), "--max-ops", str(max_ops), "--max-variants", str(max_variants), "--out", out]
     p = subprocess.run(cmd, capture_output=True, text=True)
     if p.returncode != 0:
         raise RuntimeError("export failed: " + p.stderr[-400:])
@@ -129,7 +141,7 @@ def exec_one(target, path, grant=False, timeout=1500):
     j = json.loads(txt)
     args = ["exec"] + (["--grant"] if grant else []) + [os.path.basename(path), txt]
     rc, out, err, wall = run_miri(target, "", args, timeout)
-    res = {"file": path, "target": target, "rc": rc, "wall": wall, "ops": len(j["ops"]), "native": j["meta"]["native_h_portable"],
+    res = {"file": path, "target": target, "grant": grant, "rc": rc, "wall": wall, "ops": len(j["ops"]), "native": j["meta"]["native_h_portable"],
            "native_violation": j["meta"].get("native_violation")}
     last = "none"
     for m in re.finditer(r"^@op (\S+) (\S+)", out, re.M):
@@ -153,18 +165,26 @@ def exec_one(target, path, grant=False, timeout=1500):
 def miri_exec_engine(prop, tier, seed):
     quick = tier == "quick"
     nlists = 8 if quick else 64
-    targets = ["x86_64", "i686"]
+    targets = ["x86_64", "i686", "aarch64"]
     files = export_lists(prop, seed, nlists, 10 if quick else 16, 3, "exec")
-    jobs = [(t, f) for t in targets for f in files]
+    # aarch64: AES lists with detection granted (ARMv8-CE path, five intrinsics modelled) and denied (fixslice64 through
+    # the aarch64 autodetect wrapper); Kuznyechik NEON in lists of its own (table start-up cost)
+    a64_aes = export_lists(prop, seed + 1, 3 if quick else 24, 8 if quick else 14, 3, "a64aes", only=["aes128", "aes192", "aes256"],
+                           variants=["aes_auto", "aes_auto_z", "aes_autoc_z", "aes_soft", "aes_alt_z"])
+    a64_kuz = export_lists(prop, seed + 2, 1 if quick else 8, 6 if quick else 10, 2, "a64kuz", only=["kuznyechik"], variants=["kuz", "kuz_z", "kuz_compact_z"])
+    jobs = [(t, f, False) for t in ("x86_64", "i686") for f in files]
+    jobs += [("aarch64", f, True) for f in a64_aes] + [("aarch64", f, False) for f in a64_aes[: (1 if quick else 8)]]
+    jobs += [("aarch64", f, True) for f in a64_kuz]
     t0 = time.time()
     with ThreadPoolExecutor(max_workers=16) as ex:
-        results = list(ex.map(lambda tf: exec_one(tf[0], tf[1]), jobs))
+        results = list(ex.map(lambda tf: exec_one(tf[0], tf[1], grant=tf[2]), jobs))
     cov = {"mode": "exec (single-threaded, explicit operation lists exported by the native engine; digest compared with native)",
            "targets": {t: TARGETS[t] for t in targets}, "lists": len(files), "executions": len(results),
            "ops_executed": sum(r.get("steps", 0) for r in results), "cipher_calls": sum(r.get("calls", 0) for r in results),
            "digest_matches_native": sum(1 for r in results if r.get("status") == "ok" and r.get("digest") == r["native"]),
            "wall_s": round(time.time() - t0, 1),
-           "what_is_real": "all of /repo that the simulated target compiles (i686: fixslice32 unmodified; x86_64: autodetect soft arm, SSE2 Kuznyechik not run - compact_soft only), stub: CPUID (detection answers 'no AES' as upstream does under Miri)",
+           "what_is_real": "all of /repo that the simulated target compiles (i686: fixslice32 unmodified; x86_64: autodetect soft arm, Kuznyechik compact_soft; aarch64: aes/src/armv8* and kuznyechik/src/neon/* with exactly five intrinsics redirected to sim/models/verif_neon_model.rs, everything else unmodified). stub: CPUID/hwcap (the simulator decides: 'no AES' as upstream does under Miri, or granted on aarch64), five aarch64 intrinsics",
+           "aarch64_detection_granted_runs": sum(1 for r in results if r["target"] == "aarch64" and r.get("grant")),
            "per_target_ok": {t: sum(1 for r in results if r["target"] == t and r.get("status") == "ok") for t in targets}}
     viols, notes, herr = [], [], []
     for r in results:
@@ -174,20 +194,20 @@ def miri_exec_engine(prop, tier, seed):
             if r["digest"] != r["native"] and not r.get("native_violation"):
                 sig = f"C03/cross-target/{r['target']}"
                 rp = write_replay(f"{base}-{r['target']}.miri.json", {"format": "block-ciphers-sim-replay/1", "property": "C03", "engine": "miri",
-                                  "mode": "exec", "target": r["target"], "miriflags": "", "list": json.load(open(r["file"])),
+                                  "mode": "exec", "target": r["target"], "grant": r.get("grant", False), "miriflags": "", "list": json.load(open(r["file"])),
                                   "violation": {"property": "C03", "class": "cross-target", "detail": f"history digest under Miri {r['target']} is {r['digest']}, natively {r['native']}"}})
                 (viols if prop == "C03" else notes).append(("C03", sig, rp, f"history digest differs between native x86-64 and Miri {r['target']}"))
         elif st == "violation":
             d = r["detail"]
             sig = f"{d['property']}/{d['class']}/{d['family']}/{d['variant']}"
             rp = write_replay(f"{base}-{r['target']}.miri.json", {"format": "block-ciphers-sim-replay/1", "property": d["property"], "engine": "miri",
-                              "mode": "exec", "target": r["target"], "miriflags": "", "list": json.load(open(r["file"])), "violation": d})
+                              "mode": "exec", "target": r["target"], "grant": r.get("grant", False), "miriflags": "", "list": json.load(open(r["file"])), "violation": d})
             (viols if d["property"] == prop else notes).append((d["property"], sig, rp, d["detail"]))
         elif st in ("ub", "race", "deadlock"):
             p = attribute_ub(r.get("stderr_tail", ""), r.get("last_op"))
             sig = f"{p}/miri-{st}/{r['target']}"
             rp = write_replay(f"{base}-{r['target']}.miri.json", {"format": "block-ciphers-sim-replay/1", "property": p, "engine": "miri",
-                              "mode": "exec", "target": r["target"], "miriflags": "", "list": json.load(open(r["file"])),
+                              "mode": "exec", "target": r["target"], "grant": r.get("grant", False), "miriflags": "", "list": json.load(open(r["file"])),
                               "violation": {"property": p, "class": "miri-" + st, "detail": r.get("error"), "last_op": r.get("last_op"), "stderr_tail": r.get("stderr_tail", "")[-1500:]}})
             (viols if p == prop else notes).append((p, sig, rp, r.get("error", "")))
         else:
@@ -376,7 +396,7 @@ def replay(path):
             tmp = os.path.join(BUILD, "tmp", "replay-list.json")
             os.makedirs(os.path.dirname(tmp), exist_ok=True)
             json.dump(j["list"], open(tmp, "w"))
-            r = exec_one(j["target"], tmp)
+            r = exec_one(j["target"], tmp, grant=j.get("grant", False))
             want = j["violation"]["class"]
             print(json.dumps({k: r[k] for k in r if k not in ("stderr_tail",)})[:2000])
             bad = r["status"] in ("violation", "ub", "race", "deadlock") or (r["status"] == "ok" and r["digest"] != r["native"] and want == "cross-target")
@@ -402,8 +422,11 @@ def replay(path):
 
 def warm():
     rc = 0
-    for t in ("x86_64", "i686"):
-        p = subprocess.run(["cargo", "+nightly", "miri", "setup", "--offline", "--target", TARGETS[t]], cwd=WS, env=env_offline(), capture_output=True, text=True)
+    for t in ("x86_64", "i686", "aarch64"):
+        e = env_offline()
+        if t == "aarch64":
+            e["RUSTFLAGS"] = "-C target-feature=+aes"
+        p = subprocess.run(["cargo", "+nightly", "miri", "setup", "--offline", "--target", TARGETS[t]], cwd=(WS_A64 if t == "aarch64" else WS), env=e, capture_output=True, text=True)
         if p.returncode != 0:
             print("HARNESS-ERROR: miri setup " + t + ": " + p.stderr[-500:], file=sys.stderr)
             rc = 2
